@@ -33,7 +33,9 @@ func (n zzPName) ref() string {
 }
 
 // zzGenForm returns a real form of the given depth and its reference text.
-func zzGenForm(depth int, seq *int) (Form, string) {
+func zzGenForm(depth int, seq *int) (Form, string) { return zzGenFormB(depth, seq, false) }
+
+func zzGenFormB(depth int, seq *int, zzInCutBody bool) (Form, string) {
 	if depth == 0 {
 		w := zzGenPName(seq)
 		return NewClose(w.name()), "close " + w.ref()
@@ -45,31 +47,37 @@ func zzGenForm(depth int, seq *int) (Form, string) {
 	case 0:
 		return NewSend(a.name(), b.name(), c.name()), "send " + a.ref() + " < " + b.ref() + " , " + c.ref() + " >"
 	case 1:
-		k, kt := zzGenForm(depth-1, seq)
+		k, kt := zzGenFormB(depth-1, seq, zzInCutBody)
 		return NewReceive(a.name(), b.name(), c.name(), k), "< " + a.ref() + " , " + b.ref() + " > <- recv " + c.ref() + " ; " + kt
 	case 2:
 		return NewSelect(a.name(), Label{L: lab}, b.name()), a.ref() + " . " + lab + " < " + b.ref() + " >"
 	case 3:
-		k0, kt0 := zzGenForm(depth-1, seq)
+		k0, kt0 := zzGenFormB(depth-1, seq, zzInCutBody)
 		txt := "case " + a.ref() + " ( " + lab + " < " + b.ref() + " > => " + kt0
 		brs := []*BranchForm{NewBranch(Label{L: lab}, b.name(), k0)}
 		if vn.Pick(2) == 1 {
-			k1, kt1 := zzGenForm(depth-1, seq)
+			k1, kt1 := zzGenFormB(depth-1, seq, zzInCutBody)
 			lab2 := vn.OpaqueStr(40 + *seq)
 			brs = append(brs, NewBranch(Label{L: lab2}, c.name(), k1))
 			txt += " | " + lab2 + " < " + c.ref() + " > => " + kt1
 		}
 		return NewCase(a.name(), brs), txt + " )"
 	case 4:
-		body, bt := zzGenForm(depth-1, seq)
-		k, kt := zzGenForm(depth-1, seq)
+		// the spawned body gets one more level than the continuation (once): a body with a
+		// continuation of its own must be printed in full, not abbreviated
+		bd := depth - 1
+		if !zzInCutBody && vn.Param("CUTBODY", 1) == 1 {
+			bd = depth
+		}
+		body, bt := zzGenFormB(bd, seq, true)
+		k, kt := zzGenFormB(depth-1, seq, zzInCutBody)
 		return NewNew(a.name(), body, k), a.ref() + " <- new ( " + bt + " ) ; " + kt
 	case 5:
 		return NewClose(a.name()), "close " + a.ref()
 	case 6:
 		return NewForward(a.name(), b.name()), "fwd " + a.ref() + " " + b.ref()
 	case 7:
-		k, kt := zzGenForm(depth-1, seq)
+		k, kt := zzGenFormB(depth-1, seq, zzInCutBody)
 		return NewSplit(a.name(), b.name(), c.name(), k), "< " + a.ref() + " , " + b.ref() + " > <- split " + c.ref() + " ; " + kt
 	case 8:
 		args := []Name{a.name()}
@@ -80,18 +88,18 @@ func zzGenForm(depth int, seq *int) (Form, string) {
 		}
 		return NewCall(lab, args), txt + " )"
 	case 9:
-		k, kt := zzGenForm(depth-1, seq)
+		k, kt := zzGenFormB(depth-1, seq, zzInCutBody)
 		return NewWait(a.name(), k), "wait " + a.ref() + " ; " + kt
 	case 10:
 		return NewCast(a.name(), b.name()), "cast " + a.ref() + " < " + b.ref() + " >"
 	case 11:
-		k, kt := zzGenForm(depth-1, seq)
+		k, kt := zzGenFormB(depth-1, seq, zzInCutBody)
 		return NewShift(a.name(), b.name(), k), a.ref() + " <- shift " + b.ref() + " ; " + kt
 	case 12:
-		k, kt := zzGenForm(depth-1, seq)
+		k, kt := zzGenFormB(depth-1, seq, zzInCutBody)
 		return NewDrop(a.name(), k), "drop " + a.ref() + " ; " + kt
 	}
-	k, kt := zzGenForm(depth-1, seq)
+	k, kt := zzGenFormB(depth-1, seq, zzInCutBody)
 	return NewPrint(Label{L: lab}, k), "print " + lab + " ; " + kt
 }
 
